@@ -210,6 +210,16 @@ def ast_tags(node, out=None, parent=None):
     return out
 
 
+def obj_case(row, k, decls, prefix="j"):
+    """GenObj row -> e2e case; `decls` = the DECLS record printed by the specification"""
+    c = prog_case(row, k, prefix=prefix)
+    c["kind"] = "obj"
+    c["decls"] = HELPER + "\n" + render.render_typedecls(decls)
+    c["body"] = [_re.sub(r"\b(Sq|Rect|Base|Derived|Q2)\(", r"\1{N}(", l) for l in c["body"]]
+    c["tags"] = sorted(set(row.get("feats", [])) | ast_tags(row["body"][4:-8]))
+    return c
+
+
 def self_check_ctl(ctx, cases):
     """the rendered function g must parse back to the AST the specification evaluated"""
     reqs = [{"op": "parse", "src": c["decls"].replace("{N}", "")} for c in cases]
